@@ -16,8 +16,9 @@ META = {
     "outside": [
         "checksummed journals are decided per pass only (scan: v1 sync+async, v2, v3 with the commit-time rule for stale blocks; replay: v1, "
         "v2, v3 tag checksums, thorough tier) with the crc primitives as T-stubs (one symbolic word per journal block); NOT covered: the "
-        "three-pass recover harness with checksums, async_commit with v2/v3 (a later checksum failure moves end_transaction forward "
-        "again), what do_one_pass does with further blocks carrying the id of a commit it just reported as failed (it leaves only the "
+        "async_commit with MORE THAN ONE checksum-invalid commit block in the log (v2/v3: a later failure moves end_transaction forward, "
+        "so the first invalid transaction would be replayed; assumed away, reported), the three-pass recover harness with checksums only "
+        "at the small bound in the thorough tier (v2 and v1 with async_commit), what do_one_pass does with further blocks carrying the id of a commit it just reported as failed (it leaves only the "
         "switch, not the loop), transaction id 0 (used as 'unset' for end_transaction / j_failed_commit), real CRC values",
         "fast commit (j_fc_replay_callback == NULL), version-1 journal superblocks, external-journal device plumbing, jbd2_journal_bmap through an inode",
         "block sizes >= 1024 (tag capacity per descriptor > 6), logs longer than 7 blocks, more than 2 revoke blocks x 3 records",
@@ -119,7 +120,8 @@ HARNESSES = [
          unwind=3, cbmc_flags=FS, backends=["default", "kissat"], cap_quick=200,
          bound="journal of 6 (thorough: 8) blocks of 64 bytes, every byte symbolic (up to 6 tags per descriptor); s_start, s_sequence "
                "symbolic, s_first 1 (thorough: symbolic); log walk <= 4 (thorough: 6) header blocks; tag size 8 and 12 (64bit); "
-               "checksum v1 (walk 3; thorough 4, async), v2 (10-byte tags), v3 (16-byte tags) with one symbolic checksum word per block"),
+               "checksum v1 (walk 3; thorough 4, async), v2 (10-byte tags; also with async_commit), v3 (16-byte tags; thorough, also async) "
+               "with one symbolic checksum word per block"),
     dict(name="revoke_table", src="revoke_table.c",
          funcs=["jbd2_journal_set_revoke", "jbd2_journal_test_revoke", "find_revoke_record", "insert_revoke_hash",
                 "jbd2_journal_clear_revoke", "jbd2_journal_init_revoke", "jbd2_journal_destroy_revoke"],
